@@ -20,6 +20,8 @@ func init() {
 			"at run time (packages resolve and execution/engine) no field of a cached plan node is assigned outside constructors (frozen: the tracing field); the plan cache stores a plan only after planning reported no error and after post-processing, under a key that is the hash of the printed operation; a planner is created per cache miss and pooled planning kits are reset before they return to the pool; " +
 			"per-request outputs of normalization (the variables remap) are never backed by pooled, reused storage. It does not decide option transparency (value level).",
 		Mutants: []Mutant{
+			{Name: "a skipped fetch keeps the trace an earlier request left on the shared plan (reverts the F87 fix)", File: loaderGo, Rule: "C09-R11", Key: "Loader.preparePhase/trace-settled-at-exit",
+				Old: "\tif l.ctx.TracingOptions.Enable {\n\t\t// The plan is shared with the requests before this one", New: "\tif false {\n\t\t// The plan is shared with the requests before this one"},
 			{Name: "a request that is executed again runs without its remap table (reverts part of the F80 fix)", File: "execution/engine/execution_engine.go", Rule: "C09-R10", Key: "ExecutionEngine.Execute/remap-table-settled",
 				Old: "\t\tremapVariables = operation.VariablesRemap()\n", New: "\t\t_ = operation.VariablesRemap()\n"},
 			{Name: "the nested data source transforms the shared upstream schema in place (reverts the F63 fix)", File: "v2/pkg/engine/datasource/graphql_datasource/graphql_datasource.go", Rule: "C09-R9", Key: "Planner.printOperation/shared-upstream-schema-read-only",
@@ -66,6 +68,7 @@ type mapRangeSite struct {
 func runC09(r *fw.Run) {
 	defer c09SharedUpstreamSchemaIsReadOnly(r)
 	defer c09RemapTableAccompaniesTheDocument(r)
+	defer c09NoTraceOfAnEarlierRequestSurvivesAVisit(r)
 	p := r.Prog
 	r.Rule("C09-R1", "no range over a map in the planning packages appends range-derived data to an outer slice that is not sorted afterwards, nor writes it to a writer/builder/hash (frozen exceptions carry a reason)")
 	// every entry was read on the pinned tree; the reason says why iteration order cannot reach the plan
@@ -594,8 +597,8 @@ func c09Immutability(r *fw.Run) {
 				r.Pass("C09-R2", key, p.Pos(w.node.Pos()), what+" (exempt: "+why+")", false)
 				continue
 			}
-			if w.field == "Trace" && tracingGuarded(w.fi, w.node) {
-				r.Pass("C09-R2", key, p.Pos(w.node.Pos()), what+" (frozen: diagnostic field, only under TracingOptions.Enable; a known benign race between concurrently traced requests that affects extensions.trace only)", true)
+			if w.field == "Trace" && (tracingGuarded(w.fi, w.node) || allCallSitesTracingGuarded(p, w.fi)) {
+				r.Pass("C09-R2", key, p.Pos(w.node.Pos()), what+" (frozen: diagnostic field, only under TracingOptions.Enable, reset at the start of every visit (C09-R11); concurrently traced requests on one cached plan still race on it — extensions.trace only)", true)
 				continue
 			}
 			r.Fail("C09-R2", key, p.Pos(w.node.Pos()), what,
@@ -611,6 +614,20 @@ func c09Immutability(r *fw.Run) {
 		}
 	})
 	r.Check(callers == 0, "C09-R2", "FieldInfo.Merge/no-runtime-caller", "-", "FieldInfo.Merge is not called from package resolve", "a run-time function merges field infos of a shared plan in place")
+}
+
+// allCallSitesTracingGuarded: fi is called (from package resolve, at least once) only under the true edge of TracingOptions.Enable.
+func allCallSitesTracingGuarded(p *fw.Prog, fi *fw.FuncInfo) bool {
+	n, ok := 0, true
+	fw.EachCall(p.Funcs("resolve"), func(caller *fw.FuncInfo, c *ast.CallExpr, stack []ast.Node) {
+		if fn := fw.Callee(caller.Info(), c); fn != nil && fn == fi.Obj {
+			n++
+			if !tracingGuarded(caller, c) {
+				ok = false
+			}
+		}
+	})
+	return n > 0 && ok
 }
 
 // tracingGuarded: the statement is dominated by the true edge of TracingOptions.Enable.
@@ -1267,4 +1284,200 @@ func c09RemapTableAccompaniesTheDocument(r *fw.Run) {
 	}
 	in.Run(nil)
 	r.Expect("C09-R10", "uses of the remap table in Execute", n, 2)
+}
+
+// c09NoTraceOfAnEarlierRequestSurvivesAVisit (R11): with tracing enabled the loader stores the trace of a fetch — the
+// subgraph's input and output — on the fetch node of the plan, which the plan cache shares with every request of the
+// operation (the frozen exception of R2), and the response renders whatever the node carries. A visit of a fetch node that
+// returns without (re)assigning the field leaves the trace of an earlier request in place, and this request's response
+// carries another request's upstream input and output. Rule: the functions that visit a fetch item (a *FetchItem
+// parameter) and write the Trace field of a plan node, directly or through a callee, are collected; for the outermost of
+// them (not called by another one) every exit is reached, on every path, after "tracing is off" (the false edge of
+// TracingOptions.Enable) or after the field was assigned: directly, by a resetter (a type switch with an assigning clause
+// for every Trace-bearing fetch type), or by a visiting callee for which the same holds on all of its paths.
+func c09NoTraceOfAnEarlierRequestSurvivesAVisit(r *fw.Run) {
+	p := r.Prog
+	r.Rule("C09-R11", "a visit of a fetch node with tracing enabled never leaves the trace of an earlier request on the shared plan: every exit of the outermost visiting function is reached after the Trace field was assigned (directly, by a resetter over all Trace-bearing fetch types, or by a callee that assigns it on all paths) or on the tracing-off edge")
+	// Trace-bearing plan types
+	bearers := map[string]bool{}
+	if pkg := p.Pkg("resolve"); pkg != nil {
+		sc := pkg.Types.Scope()
+		for _, nm := range sc.Names() {
+			tn, ok := sc.Lookup(nm).(*types.TypeName)
+			if !ok || !planTypes[nm] {
+				continue
+			}
+			if st, isSt := tn.Type().Underlying().(*types.Struct); isSt {
+				for i := 0; i < st.NumFields(); i++ {
+					if st.Field(i).Name() == "Trace" {
+						bearers[nm] = true
+					}
+				}
+			}
+		}
+	}
+	r.Expect("C09-R11", "plan node types with a Trace field", len(bearers), 4)
+	isTraceWrite := func(info *types.Info, nd ast.Node) (string, bool) {
+		for _, t := range fw.WriteTargets(info, nd) {
+			if v, sel := fw.Field(info, t); v != nil && v.Name() == "Trace" {
+				if pp, tn := fw.FieldOwner(info, sel); pp == fw.PkgPath("resolve") && bearers[tn] {
+					return tn, true
+				}
+			}
+		}
+		return "", false
+	}
+	// resetters: a type switch whose clauses assign Trace for every bearer
+	resetter := map[*types.Func]bool{}
+	writes := map[*types.Func]bool{}
+	for _, fi := range p.Funcs("resolve") {
+		info := fi.Info()
+		fw.WalkAll(fi.Decl.Body, func(nd ast.Node) bool {
+			if _, ok := isTraceWrite(info, nd); ok {
+				writes[fi.Obj] = true
+			}
+			ts, ok := nd.(*ast.TypeSwitchStmt)
+			if !ok {
+				return true
+			}
+			covered := map[string]bool{}
+			for _, st := range ts.Body.List {
+				cc := st.(*ast.CaseClause)
+				assigned := ""
+				for _, b := range cc.Body {
+					fw.WalkAll(b, func(x ast.Node) bool {
+						if tn, w := isTraceWrite(info, x); w {
+							assigned = tn
+						}
+						return true
+					})
+				}
+				if assigned != "" {
+					covered[assigned] = true
+				}
+			}
+			all := len(covered) > 0
+			for b := range bearers {
+				if !covered[b] {
+					all = false
+				}
+			}
+			if all {
+				resetter[fi.Obj] = true
+			}
+			return true
+		})
+	}
+	// visiting functions: a *FetchItem parameter, and a Trace write directly or through a direct callee
+	takesItem := func(fn *types.Func) bool {
+		sig := fn.Type().(*types.Signature)
+		for i := 0; i < sig.Params().Len(); i++ {
+			if pt, ok := sig.Params().At(i).Type().(*types.Pointer); ok {
+				if nt, isN := pt.Elem().(*types.Named); isN && nt.Obj().Name() == "FetchItem" {
+					return true
+				}
+			}
+		}
+		return false
+	}
+	visiting := map[*types.Func]*fw.FuncInfo{}
+	for _, fi := range p.Funcs("resolve") {
+		if !takesItem(fi.Obj) || resetter[fi.Obj] {
+			continue
+		}
+		if writes[fi.Obj] {
+			visiting[fi.Obj] = fi
+			continue
+		}
+		info := fi.Info()
+		fw.WalkAll(fi.Decl.Body, func(nd ast.Node) bool {
+			if c, ok := nd.(*ast.CallExpr); ok {
+				if fn := fw.Callee(info, c); fn != nil && (writes[fn] || resetter[fn]) {
+					visiting[fi.Obj] = fi
+				}
+			}
+			return true
+		})
+	}
+	// summaries: settled on all paths (iterated: callees first by fixed point from "false")
+	settled := map[*types.Func]bool{}
+	analyse := func(fi *fw.FuncInfo) (bad []token.Pos) {
+		info := fi.Info()
+		in := fw.NewInterp(fi)
+		in.H = fw.Hooks{
+			Lit: func(l *ast.FuncLit, ctx fw.LitCtx, st *fw.State) fw.LitMode { return fw.LitSkip },
+			Cond: func(e ast.Expr, branch bool, st *fw.State) {
+				if v, _ := fw.Field(info, e); v != nil && v.Name() == "Enable" && !branch {
+					st.Set("trace-settled")
+				}
+			},
+			Node: func(nd ast.Node, st *fw.State) {
+				if _, w := isTraceWrite(info, nd); w {
+					st.Set("trace-settled")
+				}
+				if c, ok := nd.(*ast.CallExpr); ok {
+					if fn := fw.Callee(info, c); fn != nil && (resetter[fn] || settled[fn]) {
+						st.Set("trace-settled")
+					}
+				}
+			},
+			Exit: func(ret *ast.ReturnStmt, lit *ast.FuncLit, st *fw.State) {
+				if lit != nil || !in.Final() {
+					return
+				}
+				if !st.Must("trace-settled") {
+					pos := fi.Decl.End()
+					if ret != nil {
+						pos = ret.Pos()
+					}
+					bad = append(bad, pos)
+				}
+			},
+		}
+		in.Run(nil)
+		return bad
+	}
+	for changed := true; changed; {
+		changed = false
+		for fn, fi := range visiting {
+			if !settled[fn] && len(analyse(fi)) == 0 {
+				settled[fn] = true
+				changed = true
+			}
+		}
+	}
+	// outermost visiting functions
+	called := map[*types.Func]bool{}
+	for _, fi := range visiting {
+		info := fi.Info()
+		fw.WalkAll(fi.Decl.Body, func(nd ast.Node) bool {
+			if c, ok := nd.(*ast.CallExpr); ok {
+				if fn := fw.Callee(info, c); fn != nil && visiting[fn] != nil && fn != fi.Obj {
+					called[fn] = true
+				}
+			}
+			return true
+		})
+	}
+	n := 0
+	var roots []*fw.FuncInfo
+	for fn, fi := range visiting {
+		if !called[fn] {
+			roots = append(roots, fi)
+		}
+	}
+	sort.Slice(roots, func(i, j int) bool { return roots[i].Name() < roots[j].Name() })
+	for _, fi := range roots {
+		n++
+		bad := analyse(fi)
+		at := p.Pos(fi.Decl.Pos())
+		if len(bad) > 0 {
+			sort.Slice(bad, func(i, j int) bool { return bad[i] < bad[j] })
+			at = p.Pos(bad[0])
+		}
+		r.Check(len(bad) == 0, "C09-R11", fi.Name()+"/trace-settled-at-exit", at, "every exit of "+fi.Name()+" is reached with the Trace field of the visited fetch assigned, or with tracing off",
+			fi.Name()+" returns on a path on which tracing is on and the Trace field of the visited fetch node was not assigned ("+itoa(len(bad))+" exit(s), the first one is reported): the node belongs to the cached plan and still carries the trace an earlier request stored — `{ me { secret } }` twice, the accounts subgraph down the second time: the skipped entity fetch is rendered with request 1's `\"trace\":{\"raw_input_data\":{…\"id\":\"user-of-request-1\"},…\"output\":{…\"SECRET-OF-REQUEST-1\"…` in request 2's extensions.trace")
+	}
+	r.Expect("C09-R11", "outermost functions that visit a fetch item and (transitively) write its Trace", n, 1)
+	r.Note("C09-R11: %d visiting functions, %d resetter(s), %d settle on all paths", len(visiting), len(resetter), len(settled))
 }
